@@ -13,7 +13,8 @@ EXTENDS Naturals, Sequences, FiniteSets, TLC
 CONSTANTS MaxOn
 
 Keys == {"title", "id", "version", "name", "instance_name", "submission_url", "public_key", "auto_send", "auto_delete",
-         "style", "namespaces", "attr_plain", "attr_ns", "omit_id", "instance_xmlns", "prefix", "delimiter"}
+         "style", "namespaces", "attr_plain", "attr_ns", "omit_id", "instance_xmlns", "prefix", "delimiter",
+         "attr_id", "attr_version"}     \* attribute::id / attribute::version: custom attributes named like the built-in ones
 Valid(S) == /\ ~({"omit_id", "public_key"} \subseteq S)        \* refused by the converter: instanceID is required for encryption
             /\ ("attr_ns" \in S => "namespaces" \in S)          \* a prefixed attribute needs its prefix declared
 VARIABLES on, chan, fname, ent, phase
